@@ -19,6 +19,9 @@ var c11Queries = []string{
 	"SELECT x.a AS a FROM (WITH c AS (SELECT a FROM t WHERE a > ?) SELECT a FROM c) x",
 	"SELECT a FROM t WHERE a > ? AND a IN (WITH c AS (SELECT p FROM items) SELECT p FROM c)",
 	"SELECT a, (SELECT p FROM items ORDER BY p DESC LIMIT 1) AS s FROM t WHERE a > ? ORDER BY a",
+	"SELECT a, `distinct=>dup` AS d FROM t WHERE a > ?",
+	"SELECT p FROM `mix=>t.items` WHERE p > ?",
+	"SELECT a, `items[0].p` AS p0, `dup[(0:1)]` AS d FROM t WHERE a > ?",
 }
 
 var faultAt, faultCalls int
@@ -45,7 +48,10 @@ func H_C11_readonly() {
 	k := verif.Choose("nested", 2) + 1
 	faultAt, faultCalls = verif.Choose("fault-at", 4), 0
 	RegisterFunction("vfault", faultFunc)
-	doc, _ := nestedDoc(n, k)
+	doc, rows := nestedDoc(n, k)
+	for _, r := range rows {
+		r["dup"] = []any{r["a"], float64(1), r["a"], float64(2), float64(1), float64(3)}
+	}
 	snap := verif.Snapshot(doc)
 	c := verif.F64("c")
 	sql := c11Queries[qi]
